@@ -97,8 +97,21 @@ def main():
         res['author_notes'] = open(a.meta, errors='replace').read()[:3000]
     d = os.path.join(ROOT, 'seeded', a.name)
     os.makedirs(d, exist_ok=True)
-    shutil.copyfile(a.diff, os.path.join(d, 'patch.diff'))
-    shutil.copyfile(a.demo, os.path.join(d, os.path.basename(a.demo)))
+    for src, dst in ((a.diff, os.path.join(d, 'patch.diff')), (a.demo, os.path.join(d, os.path.basename(a.demo)))):
+        if os.path.abspath(src) != os.path.abspath(dst):
+            shutil.copyfile(src, dst)
+    old = {}
+    mp = os.path.join(d, 'meta.json')
+    if os.path.exists(mp):
+        try:
+            old = json.load(open(mp))
+        except Exception:
+            old = {}
+    for k in ('author_notes', 'needs_to_manifest'):
+        if not res.get(k) and old.get(k):
+            res[k] = old[k]
+    if old.get('check_results') and old.get('caught_by') != res.get('caught_by'):
+        res['history'] = old.get('history', []) + [{'caught_by': old.get('caught_by'), 'note': 'result before the checks were strengthened'}]
     json.dump(res, open(os.path.join(d, 'meta.json'), 'w'), indent=1)
     print(json.dumps(results, indent=1))
     print('kept under', d, '; caught by', res['caught_by'] or 'NONE')
